@@ -393,7 +393,11 @@ pub fn epserde_derive(input: TokenStream) -> TokenStream {
                             colon_token: None,
                             bounds: Punctuated::new(),
                         }));
-                        // Add the type bounds to the DeserType
+                        // Add the type bounds to the DeserType. The
+                        // deserialization type of a zero-copy structure is a
+                        // reference to the structure itself, so it does not
+                        // involve the DeserType of the parameters.
+                        if !is_zero_copy {
                         where_clause_des
                             .predicates
                             .push(WherePredicate::Type(PredicateType {
@@ -409,6 +413,7 @@ pub fn epserde_derive(input: TokenStream) -> TokenStream {
                                 colon_token: token::Colon::default(),
                                 bounds: t.bounds.clone(),
                         }));
+                        }
                         // Add the type bounds to the SerType
                         where_clause_ser
                             .predicates
